@@ -91,6 +91,7 @@ type Op struct {
 	JSON        bool              `json:"json,omitempty"`     // WithMeta datatype
 	XRaw        []byte            `json:"xraw,omitempty"`     // WithMeta xattrs blob
 	BadJSONX    bool              `json:"badJsonX,omitempty"` // an unparseable xattr value is injected
+	BadMacro    bool              `json:"badMacro,omitempty"` // a macro-expansion path that names the xattr itself, without a property inside it
 	BadName     bool              `json:"badName,omitempty"`  // an unsupported xattr path ("_b.sub") is put in the middle of the name list
 	SpecInCb    bool              `json:"specInCb,omitempty"` // WriteUpdateWithXattrs: macros are returned by the callback (UpdatedDoc.Spec), not passed in the options
 }
@@ -147,6 +148,9 @@ func (o *Op) Variant() string {
 	}
 	if o.BadName {
 		sb.WriteString("+badname")
+	}
+	if o.BadMacro {
+		sb.WriteString("+badmacro")
 	}
 	if o.SpecInCb {
 		sb.WriteString("+cbspec")
